@@ -379,6 +379,8 @@ def visit_time_ranges(vobject_item: vobject.base.Component, child_name: str,
                     reference_dates = (dtstart,)
                 elif due is not None:
                     reference_dates = (due,)
+                elif completed is not None and created is not None:
+                    reference_dates = (created,)
                 elif completed is not None:
                     reference_dates = (completed,)
                 elif created is not None:
@@ -428,12 +430,12 @@ def visit_time_ranges(vobject_item: vobject.base.Component, child_name: str,
                     if (range_fn(reference_date - SECOND,
                                  reference_date + SECOND,
                                  is_recurrence) or
+                            range_fn(reference_date - SECOND,
+                                     completed + SECOND, is_recurrence) or
                             range_fn(completed - SECOND, completed + SECOND,
                                      is_recurrence) or
-                            range_fn(reference_date - SECOND,
-                                     reference_date + SECOND, is_recurrence) or
-                            range_fn(completed - SECOND, completed + SECOND,
-                                     is_recurrence)):
+                            range_fn(completed - SECOND,
+                                     reference_date + SECOND, is_recurrence)):
                         return
                 elif completed is not None:
                     # Line 6
